@@ -68,9 +68,9 @@ Clauses(o, ev, o2) ==
       [] ev.e = "quiescent" ->
             LET Settled(a) ==
                     LET s == App(o, a) r == Req(o, a) IN
-                    /\ r.known /\ s.rstart /\ s.parked # "send" /\ s.sendExc = 0 /\ s.disc = 0
+                    /\ r.known /\ s.rstart /\ (s.parked # "send" \/ r.ver = "2") /\ s.sendExc = 0 /\ s.disc = 0
                     /\ Connected(o) /\ ~o.paused /\ ~o.cerr /\ ~r.rst
-                    /\ (r.ver # "2" \/ o.cfg.autoack)
+                    /\ (r.ver # "2" \/ (SWin(o, a) > 0 /\ o.cwin > 0))
                 Unflushed(a) == Settled(a) /\ Wire(o, a).got # ExpLen(o, a) /\ Wire(o, a).ends = 0
                 NoEnd(a) == Settled(a) /\ App(o, a).final /\ ~App(o, a).trailersFlag /\ Wire(o, a).ends = 0
             IN (IF \E a \in DOMAIN o.apps : Unflushed(a) THEN <<F("flushed", "")>> ELSE <<>>)
